@@ -9,12 +9,16 @@ CONSTANTS
   MsV = {0, 1}
   CdV = {0, 1}
   StV = {0, 1, 2}
+  LogV = {1, 2}
+  RefV = {1}
+  SuiV = {1, 2}
   MaxOps = 14
   MaxDepth = 4
   MaxCommits = 3
   Export = "leaf"
 INVARIANT ReadsArePlainMap
 INVARIANT StageIsCanonical
+INVARIANT SideIsPlainJournal
 INVARIANT ContentsWellFormed
 INVARIANT ReopenReadsBack
 INVARIANT ExportLeaf
